@@ -1046,6 +1046,22 @@ def c16_rewriter(tier, seed):
                     pass
                 except Exception as ex:    # noqa
                     viol.append({'id': 'unbalanced-%s-%d' % (name, i), 'input': t2, 'observed': type(ex).__name__, 'expected': 'RINGReaderError (electron balance)'})
+    # unbalanced rules whose per-atom imbalances CANCEL in the total (what one labelled atom gains another loses): still rejected
+    frag = 'C labeled c1  C labeled c2 single bond to c1  H labeled h1 single bond to c2'
+    for name_, edits_ in (('move-H', 'break bond (c2, h1) form bond (c1, h1)'),
+                          ('radical-shift', 'increase number of radical (c1) decrease number of radical (c2)'),
+                          ('wrong-atom', 'break bond (c2, h1) increase number of radical (c1) increase number of radical (h1)'),
+                          ('order-vs-break', 'increase bond order (c1, c2) break bond (c2, h1)')):
+        n += 1
+        t2 = 'rule x{ reactant r1{ %s } %s }' % (frag, edits_)
+        try:
+            Read(t2)
+            viol.append({'id': 'cancelling-imbalance-%s' % name_, 'input': t2, 'observed': 'accepted', 'expected': 'RINGReaderError (electron balance of each labelled atom)',
+                         'script': "from pgradd.RINGParser.Reader import Read\nRead(%r)   # expected RINGReaderError\n" % t2})
+        except RINGReaderError:
+            pass
+        except Exception as ex:    # noqa
+            viol.append({'id': 'cancelling-imbalance-%s' % name_, 'input': t2, 'observed': type(ex).__name__, 'expected': 'RINGReaderError (electron balance)'})
     return {'name': 'independent-graph-rewriter', 'evaluations': n, 'distinct_nontrivial': distinct, 'violations': viol, 'samples': samples,
             'bound': '%d unimolecular rules (1-3 atom reactant, break/form/increase/decrease bond, radical +/-/set) and their unbalanced variants x %d molecules' % (len(C16_RULES), len(smiles)),
             'rule': 'a case is (rule, molecule); rules distinct'}
